@@ -90,6 +90,16 @@ def _is_elem_position(expr, loop, elems, depth=0):
             expr.value, ast.Name) and expr.value.id in elems \
             and isinstance(expr.slice, ast.Constant):
         return True
+    if isinstance(expr, ast.Name) and isinstance(loop.target, ast.Tuple):
+        # unpacked in the loop header: `for lo, hi, *_ in table`
+        tgt = loop.target
+        if isinstance(loop.iter, ast.Call) and U(loop.iter.func) == \
+                'enumerate' and len(tgt.elts) == 2:
+            tgt = tgt.elts[1]
+        if isinstance(tgt, ast.Tuple) and any(
+                isinstance(x, ast.Name) and x.id == expr.id
+                for x in tgt.elts):
+            return True
     if isinstance(expr, ast.Name) and depth < 2:
         # unpacked from the loop element: `a, b, c = elem`
         for s in ast.walk(loop):
@@ -166,7 +176,33 @@ def _enclosing_if(node, loop):
     return None
 
 
-def _paths_update(stmts, v):
+ZERO_WIDTH_CALLS = ('n_hierarchical_parameters', 'n_hierarchical_dim')
+
+
+def _zero_width_guard(cont, loop):
+    """The `continue` sits under a test on the element's number of
+    individual-level parameters / dimensions: an element without them
+    occupies no block of an individual-level array, so skipping it without
+    moving the cursor of that array is the same as the `if n_b > 0:` block
+    form (repository fact, see DESIGN.md)."""
+    cur = getattr(cont, '_parent', None)
+    while cur is not None and cur is not loop:
+        if isinstance(cur, ast.If):
+            names = _names(cur.test)
+            txt = U(cur.test)
+            if any(c in txt for c in ZERO_WIDTH_CALLS):
+                return True
+            for d in ast.walk(loop):
+                if isinstance(d, ast.Assign) and any(
+                        isinstance(x, ast.Name) and x.id in names
+                        for t in d.targets for x in ast.walk(t)) and any(
+                        c in U(d.value) for c in ZERO_WIDTH_CALLS):
+                    return True
+        cur = getattr(cur, '_parent', None)
+    return False
+
+
+def _paths_update(stmts, v, loop=None):
     """Does every path through stmts that reaches the end of the iteration
     (fall-through or `continue`) assign v?  -> (all_paths_ok, witness line)
     Paths ending in return/raise/break are not iteration ends."""
@@ -198,7 +234,8 @@ def _paths_update(stmts, v):
             elif isinstance(s, ast.With):
                 live = run(s.body, live)
             elif isinstance(s, ast.Continue):
-                if False in live:
+                if False in live and not (
+                        loop is not None and _zero_width_guard(s, loop)):
                     bad.append(s.lineno)
                 return set()
             elif isinstance(s, (ast.Return, ast.Raise, ast.Break)):
@@ -266,7 +303,7 @@ def analyse_loop(repo, rel, cls, fn, loop, zeros, report_ok, report_bad):
             region = blk.body if any(
                 a in ast.walk(ast.Module(body=blk.body, type_ignores=[]))
                 for a in asgs) else blk.orelse
-        ok, line = _paths_update(region, v)
+        ok, line = _paths_update(region, v, loop)
         where = repo.loc(loop, cls, fn.name)
         if ok:
             report_ok(where, construct,
